@@ -402,6 +402,8 @@ def _decl_dims(rr, shape, mode, who):
 def _operand(g, rr, dt, shape, who, role, tagset):
     """role: None | 'divisor' | 'shift' (values must stay legal for every feed)."""
     mode = rr.pick(["static", "static", "static", "static", "mixed", "named", "anon"])
+    if g.cfg.get("symbolic"):  # C09: the bindings of symbolic dims are what is explored - operands mostly carry symbols
+        mode = rr.pick(["named", "named", "named", "mixed", "mixed", "anon", "static"])
     src = rr.pick(["input", "input", "input", "input", "const", "mid"])
     integer = dt.kind in "iu"
     if role == "divisor" and integer:
@@ -451,7 +453,8 @@ def _shape_value(g, rr, s, tagset, y=None):
     if y is not None and tuple(y.shape) == s and rr.chance(5):
         z = y
     else:
-        z = g.add_input(rr.pick([F32, I64, BOOL]), s, dims=_decl_dims(rr, s, rr.pick(["static", "static", "named", "anon"]), "z"))
+        zmode = rr.pick(["static", "static", "named", "anon"]) if not g.cfg.get("symbolic") else rr.pick(["private", "private", "named", "anon", "static", "mixed"])
+        z = g.add_input(rr.pick([F32, I64, BOOL]), s, dims=_decl_dims(rr, s, zmode, "z"))
     if kind == "shape_of":
         r = g.emit("Shape", [z])
         return (r[0] if r else None), kind
